@@ -39,7 +39,8 @@ func processHints(query sql.ISelect, hints *storage.SelectHints) sql.ISelect {
 	instantVectors := map[string]bool{
 		"abs": true, "absent": true, "ceil": true, "exp": true, "floor": true,
 		"ln": true, "log2": true, "log10": true, "round": true, "scalar": true, "sgn": true, "sort": true, "sqrt": true,
-		"timestamp": true, "atan": true, "cos": true, "cosh": true, "sin": true, "sinh": true, "tan": true, "tanh": true,
+		// not "timestamp": it reads the sample's own time, it must see the raw samples
+		"atan": true, "cos": true, "cosh": true, "sin": true, "sinh": true, "tan": true, "tanh": true,
 		"deg": true, "rad": true,
 	}
 	rangeVectors := map[string]bool{
